@@ -473,25 +473,24 @@ func (e *Executor) LoadDependencyOutputs(
 			return nil
 		}
 
-		targetResult, err := e.targetCache.Load(ctx, localDep.ChangeHash)
-		if err != nil {
-			// We cannot even get the target cache: re-run immediately
-			return rerunDependency()
+		targetResult, loadErr := e.targetCache.Load(ctx, localDep.ChangeHash)
+		if loadErr == nil {
+			progress := worker.NewProgressTracker(
+				fmt.Sprintf("%s: loading %s", target.Label, console.FCountOutputs(len(target.AllOutputs()))),
+				0,
+				update,
+			)
+			loadErr = e.registry.LoadOutputs(ctx, localDep, targetResult, progress)
 		}
 
-		progress := worker.NewProgressTracker(
-			fmt.Sprintf("%s: loading %s", target.Label, console.FCountOutputs(len(target.AllOutputs()))),
-			0,
-			update,
-		)
-		loadErr := e.registry.LoadOutputs(ctx, localDep, targetResult, progress)
-
+		// A dependency whose target result cannot even be read is re-run like one whose outputs fail to load;
+		// the remaining dependencies are still loaded afterwards.
 		if loadErr != nil || localDep.SkipsCache() {
 			logger.Debugf(
 				"%s: failed to load output for dependency %s (re-rerunning): err=%v no-cache=%t",
 				target.Label,
 				localDep.Label,
-				err,
+				loadErr,
 				target.SkipsCache(),
 			)
 			// In this case we need to also recursively re-load the dependencies of the dependency
